@@ -58,7 +58,7 @@ macro_rules! flags {
 /// specifications (decimal only in 4 of them when `dec_all` is false, because bva's decimal
 /// formatting is a repeated long division).
 pub fn matrix<T: Display + Binary + Octal + LowerHex + UpperHex>(v: &T, w: usize, dec_all: bool) -> Vec<(&'static str, String)> {
-    let mut out: Vec<(&'static str, String)> = Vec::with_capacity(560);
+    let mut out: Vec<(&'static str, String)> = Vec::with_capacity(570);
     if w == usize::MAX - 2 {
         // padded set for very long vectors: flags and padding with a width beyond the digit
         // count (linear cost; the width is derived from the binary digit count)
@@ -87,6 +87,8 @@ pub fn matrix<T: Display + Binary + Octal + LowerHex + UpperHex>(v: &T, w: usize
         out.push(("{:o}", format!("{:o}", v)));
         out.push(("{:x}", format!("{:x}", v)));
         out.push(("{:#X}", format!("{:#X}", v)));
+        out.push(("{:.5x}", format!("{:.5x}", v)));
+        out.push(("{:.1b}", format!("{:.1b}", v)));
         return out;
     }
     flags!(out, v, w, dec_all, "");
@@ -96,6 +98,13 @@ pub fn matrix<T: Display + Binary + Octal + LowerHex + UpperHex>(v: &T, w: usize
     flags!(out, v, w, dec_all, "*<");
     flags!(out, v, w, dec_all, "_^");
     flags!(out, v, w, dec_all, "0>");
+    // a precision is ignored by integer formatting (std's pad_integral), with or without a width
+    out.push(("{:.3b}", format!("{:.3b}", v)));
+    out.push(("{:.0o}", format!("{:.0o}", v)));
+    out.push(("{:.2x}", format!("{:.2x}", v)));
+    out.push(("{:#.1X}", format!("{:#.1X}", v)));
+    out.push(("{:w$.2x}", format!("{:w$.2x}", v, w = w)));
+    out.push(("{:<+w$.4b}", format!("{:<+w$.4b}", v, w = w)));
     if !dec_all {
         out.push(("{}", format!("{}", v)));
         out.push(("{:+w$}", format!("{:+w$}", v, w = w)));
@@ -152,7 +161,7 @@ impl Property for C14 {
         "C14"
     }
     fn rule(&self) -> String {
-        "Cases: (vector of any zoo type/length/provenance, width argument). A fixed matrix of 560 literal format specifications ({}, {:b}, {:o}, {:x}, {:X} x flags {none,+,#,0,+#,#0,+0,+#0} x fill/alignment {none,<,^,>,*<,_^,0>} x {no width, runtime width}) is applied to the vector and to the oracle integer and compared string by string (for lengths above 128 bits decimal is limited to 4 specifications because bva formats decimal by repeated long division). Oracle: std u128 formatting up to 128 bits, num-bigint BigUint above; in the same run BigUint is compared with u128 on every <=128-bit case, so the wide oracle's flag handling is itself validated against std. Metamorphic: zero-extending the value and converting it to other implementations leaves every string unchanged. Widths: 0, digits-1, digits, digits+1, digits+3, 50. Vectors above 400 bits use a minimal set ({:b},{:o},{:x},{:#X}, with or without {}) or a padded set (9 specifications combining #,+,0, fill and alignment with widths beyond the binary and the hex digit count). Enumerated: all values n<=10 (quick)/14 (thorough) on the 1- and 2-word types and Bvd/Bv; 2^k, 2^k-1 and 0 for every k<=min(C,320). Non-trivial: the value has fewer digits than the length suggests (leading zero digit groups), or is zero with n>0, or n=0, or exceeds 2^64. Distinct by hash of the case.".into()
+        "Cases: (vector of any zoo type/length/provenance, width argument). A fixed matrix of 560 literal format specifications ({}, {:b}, {:o}, {:x}, {:X} x flags {none,+,#,0,+#,#0,+0,+#0} x fill/alignment {none,<,^,>,*<,_^,0>} x {no width, runtime width}) is applied to the vector and to the oracle integer and compared string by string (for lengths above 128 bits decimal is limited to 4 specifications because bva formats decimal by repeated long division). Oracle: std u128 formatting up to 128 bits, num-bigint BigUint above; in the same run BigUint is compared with u128 on every <=128-bit case, so the wide oracle's flag handling is itself validated against std. Metamorphic: zero-extending the value and converting it to other implementations leaves every string unchanged. Six more specifications carry a precision (ignored by integer formatting). Widths: 0, digits-1, digits, digits+1, digits+3, 50. Vectors above 400 bits use a minimal set ({:b},{:o},{:x},{:#X}, with or without {}) or a padded set (9 specifications combining #,+,0, fill and alignment with widths beyond the binary and the hex digit count). Enumerated: all values n<=10 (quick)/14 (thorough) on the 1- and 2-word types and Bvd/Bv; 2^k, 2^k-1 and 0 for every k<=min(C,320). Non-trivial: the value has fewer digits than the length suggests (leading zero digit groups), or is zero with n>0, or n=0, or exceeds 2^64. Distinct by hash of the case.".into()
     }
     fn random_cases(&self, tier: Tier) -> u64 {
         tier.pick(40000, 1500000)
